@@ -52,6 +52,9 @@ def gen_scenarios(c, nref, lastwait, nspawn):
         for kind, ph in phases:
             add(kind, {"phase": ph}, rng.choice(["late", "late", "early"]), rng.choice(SIGNALS))
         add("one", {"line": rng.randrange(20, 40)}, "late", "KILL", second=rng.randrange(5, 60))
+        # the signal reaches the whole process group of the experiment (Ctrl-C / hang-up of its terminal)
+        add("one", {"phase": "running:1"}, "late", "GINT")
+        add("chain2", {"phase": "running:1"}, "late", "GHUP")
         k += 1
         scs.append(cases.sc_frozen_orphan(f"s{k:04d}", nspawn))
         for sig, latch in (("TERM", "late"), ("KILL", "early")):
@@ -84,6 +87,10 @@ def gen_scenarios(c, nref, lastwait, nspawn):
         for _ in range(20):
             kind = rng.choice(["one", "chain2", "indep2"])
             add(kind, {"line": rng.randrange(1, nref[kind] + 1)}, "late", "KILL", second=rng.randrange(1, 80))
+        for kind, ph in (("one", "running:1"), ("one", "spawn:1"), ("chain2", "running:1"), ("chain2", "between:1"),
+                         ("indep2", "running:2")):
+            for sig in ("GINT", "GHUP", "GTERM"):
+                add(kind, {"phase": ph}, rng.choice(["late", "early"]), sig)
         for i in range(12):
             k += 1
             scs.append(cases.sc_frozen_orphan(f"s{k:04d}", nspawn + (i % 3), SIGNALS[i % 2], wait=rng.choice([1.5, 2.5, 4.0])))
@@ -144,7 +151,11 @@ def oracle(c, sc, out):
             verdict = "violation"
         begun = [(r["pid"]) for r in cases.body_rows(rows, t) if r["kind"] == "begin"]
         ended_ok = [(r["pid"]) for r in cases.body_rows(rows, t) if r["kind"] == "end" and r["res"] == "ok"]
-        if set(begun) - set(ended_ok):
+        if set(begun) - set(ended_ok) and str(meta.get("sig", "")).startswith("G"):
+            c.violation("C11:group-signal-kills-jobs", f"a signal sent to the process group of the experiment (as a terminal "
+                        f"does) killed the running process of job {t}", data)
+            verdict = "violation"
+        elif set(begun) - set(ended_ok):
             c.violation("C11:job-process-lost", f"a process of job {t} began its body and never ended it successfully", data)
             verdict = "violation"
     if any(r["who"] == "P" and r["kind"] == "early" for r in rows):
